@@ -52,7 +52,8 @@ RULE = ("histories = 1..10 calls of set_patt_len/set_prbs_order/set_bits_shift/s
         "x 10^-3..10^3, limit +- 1 ulp / +- 1e-9 rel / +- 1 unit, 0, negatives, 2^62, as int and float scalars and per-channel "
         "lists (list/tuple/ndarray, length 0..6); channels = None, int, lists incl. 0, negatives, 5.., duplicates, > 4 entries; "
         "data lengths {1,2,1023,1024,1025,2047,2048,2049,3072,4097,10^4,random}, start addresses {1,2,1023..1026,random, end of "
-        "memory}; SYNC = PRBS7/9/11 (full period or >=32-slot prefix) x sps x every delay d<l x fill {cyclic,zeros} x noise "
+        "memory}, 1-D / string (also with ',' and ' ' separators) / 2-D per-channel data fitting exactly, one bit too long and with "
+        "rows != bits at the end of the memory; SYNC = PRBS7/9/11 (full period or >=32-slot prefix) x sps x every delay d<l x fill {cyclic,zeros} x noise "
         "{0,0.05,0.1,0.2}; non-trivial = history that emitted >=1 command (distinct by content hash) / SYNC case with l>=2 "
         "(distinct by pattern, sps, d, fill, sigma)")
 PARTIAL = [
@@ -66,9 +67,8 @@ PARTIAL = [
     "aperiodicity of np.kron(PRBS, ones(sps)) is a hypothesis of sync_argmax, evaluated numerically on every generated pattern",
     "scalar getters: the model only emits the queries; the returned values are checked by the oracle against its own reference state",
     "NaN requests, non-numeric/bool arguments, ints beyond 2^62, 2-D value arrays, float channel numbers: outside the generated domain",
-    "2-D (per-channel) set_data that does not fit between the start address and the end of the memory is not generated (suspected "
-    "defect C20:setdata-2d-memory-end, reported); set_data start addresses outside 1..2^21 are run in dry-run mode only and only the "
-    "channel/block/header clauses are demanded for them",
+    "set_data start addresses outside 1..2^21 are run in dry-run mode only and only the channel/block/header clauses are demanded for "
+    "them (2-D data next to the end of the memory ARE generated since fix e1248f9; failures there carry the sig C20:setdata-2d-memory-end)",
 ]
 ASSUMPTIONS = [
     "a Python float x is represented by the decimal number repr(x) denotes (Fraction(Decimal(repr(x)))); this map is strictly "
@@ -185,8 +185,8 @@ def mk_data(d):
 
 def data_rows(d):
     """(is2d, rows of ints) as np.array(data, dtype=bool) sees them"""
-    if d["k"] == "str":
-        return False, [[int(ch) for ch in d["v"]]]
+    if d["k"] == "str":     # str2array(bool): blanks and commas are separators only
+        return False, [[int(ch) for ch in d["v"].replace(" ", "").replace(",", "")]]
     if d["k"] == "rows":
         return True, [list(r) for r in d["v"]]
     return False, [list(d["v"])]
@@ -828,18 +828,12 @@ def oracle_hist(case, res):
         if name == "setdata" and not 1 <= op["start"] <= MAXMEM:
             mem_defined = False               # outside the statement's quantifier: only clause 1 (above) is demanded
             continue
+        near_end_2d = False
         if name == "setdata":
             two_, rows_ = data_rows(op["d"])
             lim_ = MAXMEM - op["start"] + 1
-            if two_ and rows_ and (len(rows_[0]) > lim_ or len(rows_) > lim_):
-                # suspected defect (reported, not demanded by the generated domain): for 2-D data `len(data)` counts the ROWS, so
-                # rows that do not fit are not truncated (write beyond the memory) and surplus rows are dropped instead
-                beyond = any(p[0] == "D" and p[2] + p[3] - 1 > MAXMEM for p in cmds)
-                if r["status"] != "ok" or beyond or len([p for p in cmds if p[0] == "D"]) < min(len(chans_of(op)), len(rows_)):
-                    v.append(("C20:setdata-2d-memory-end", f"{where}: {len(rows_)} rows of {len(rows_[0])} bits at address {op['start']}: "
-                                                           f"sent {r['cmds'][:2]}, status {r['status']} {r.get('detail', '')}"))
-                mem_defined = False
-                continue
+            # per-channel data next to the end of the memory (defect repaired by e1248f9: the length test used the row count)
+            near_end_2d = bool(two_ and rows_ and len({len(x) for x in rows_}) == 1 and (len(rows_[0]) > lim_ or len(rows_) > lim_))
         if not well_typed:
             if r["status"] == "ok" and name != "getdata":
                 v.append((f"C20:type-accepted:{name}", f"{where}: ill-typed request accepted, sent {r['cmds'][:2]}"))
@@ -847,7 +841,10 @@ def oracle_hist(case, res):
                 v.append((f"C20:sent-before-error:{name}", f"{where}: commands sent for a rejected request: {r['cmds'][:2]}"))
             continue
         if r["status"] != "ok":
-            v.append((f"C20:error:{name}:{r.get('err')}", f"{where}: raised {r.get('detail')} instead of clamping"))
+            if near_end_2d:
+                v.append(("C20:setdata-2d-memory-end", f"{where}: 2-D data at address {op['start']}: raised {r.get('detail')}, sent {r['cmds'][:2]}"))
+            else:
+                v.append((f"C20:error:{name}:{r.get('err')}", f"{where}: raised {r.get('detail')} instead of clamping"))
             continue
         chans, ch_bad = (ref_channels(op["chs"]) if "chs" in op else ([], False))
         if ch_bad and not r["warned"]:
@@ -949,7 +946,10 @@ def oracle_hist(case, res):
                         v.append(("C20:no-warning:setdata", f"{where}: data longer than the memory truncated without a warning"))
                 per = [(ch, bits) for ch in chans]
             else:
-                per = [(ch, [1 if b else 0 for b in row]) for ch, row in zip(chans, rows)]
+                if rows and len(rows[0]) > lim and not r["warned"]:
+                    v.append(("C20:no-warning:setdata", f"{where}: rows longer than the memory truncated without a warning"))
+                per = [(ch, [1 if b else 0 for b in row][:lim]) for ch, row in zip(chans, rows)]
+            n_before = len(v)
             k = 0
             for ch, bits in per:
                 want_blocks = [bits[i:i + 1024] for i in range(0, len(bits), 1024)] or [[]]
@@ -971,6 +971,10 @@ def oracle_hist(case, res):
                         refmem[ch][p[2] + i] = b
             if k < len(cmds) and not any(s.startswith("C20:blocks") for s, _ in v):
                 v.append(("C20:blocks-extra", f"{where}: {len(cmds) - k} unexpected extra commands, first {r['cmds'][k][:50]!r}"))
+            if near_end_2d and len(v) > n_before:
+                msg = "; ".join(m_ for _, m_ in v[n_before:])[:300]
+                del v[n_before:]
+                v.append(("C20:setdata-2d-memory-end", f"{where}: {len(rows)} rows of {len(rows[0])} bits at address {start}: {msg}"))
         elif name == "getdata":
             if not mem_defined:
                 continue
@@ -1208,8 +1212,6 @@ def rand_op(rng, data_lens):
 def data_pair(rng, length, start=None, chs="rand", nrows=None):
     start = rand_start(rng, length) if start is None else start
     start = max(1, min(start, MAXMEM))
-    if nrows:
-        start = min(start, MAXMEM - length - 8)      # 2-D data near the end of the memory: see C20:setdata-2d-memory-end
     c = rand_chs(rng) if chs == "rand" else chs
     ops = [{"op": "setdata", "d": rand_data(rng, length, nrows), "start": start, "chs": c}]
     r = rng.random()
@@ -1290,6 +1292,25 @@ def gen_hist_cases(rng, tier):
     for L in [1, 2, 1024, 1025, 2049]:
         cases.append({"kind": "hist", "ops": data_pair(rng, L, None, chs={"k": "list", "v": [1, 2, 3, 4][: rng.randint(1, 4)]},
                                                        nrows=rng.randint(1, 4))})
+    # 2-D per-channel data and separator strings at / next to the end of the memory (fits exactly, one bit too long, rows != bits)
+    for L, nr in [(1, 1), (1, 3), (2, 3), (2, 2), (3, 2), (5, 4), (4, 4), (1024, 2), (1025, 3), (2049, 2)]:
+        for over in [0, 1, 2, L - 1 if L > 3 else 3, -1, -3]:
+            st = min(MAXMEM, max(1, MAXMEM - L + 1 + over))
+            chs = {"k": rng.choice(["list", "tuple", "ndarray"]), "v": rng.sample([1, 2, 3, 4], min(nr, 4))}
+            if rng.random() < 0.25:
+                chs = rng.choice([None, {"k": "list", "v": [1, 2, 3, 4]}])
+            cases.append({"kind": "hist", "ops": [
+                {"op": "setdata", "d": rand_data(rng, L, nr), "start": st, "chs": chs},
+                {"op": "getdata", "size": L, "start": st, "chs": chs},
+                {"op": "getdata", "size": max(1, min(L, MAXMEM - st + 1)), "start": st, "chs": None}]})
+    for txt in ["0,1,1", "0 1 1", "1, 0, 1, 1", "1 1 0 1 0", "0,1 1,0", "1,1,1,0,0,0,1"]:
+        n = len(txt.replace(" ", "").replace(",", ""))
+        for over in [0, 1, 2, -1, n - 1]:
+            st = min(MAXMEM, MAXMEM - n + 1 + over)
+            chs = rng.choice([None, 1, 3, {"k": "list", "v": [2, 4]}, {"k": "list", "v": [0, 9]}])
+            cases.append({"kind": "hist", "ops": [{"op": "setdata", "d": {"k": "str", "v": txt}, "start": st, "chs": chs},
+                                                  {"op": "getdata", "size": n, "start": st, "chs": chs}]})
+        cases.append({"kind": "hist", "dry": True, "ops": [{"op": "setdata", "d": {"k": "str", "v": txt}, "start": rng.choice([1, 1000, MAXMEM - 1]), "chs": None}]})
     cases.append({"kind": "hist", "ops": [{"op": "setdata", "d": {"k": "list", "v": []}, "start": 5, "chs": 2}]})
     cases.append({"kind": "hist", "ops": data_pair(rng, 3, MAXMEM, chs=1)})            # only one bit fits
     cases.append({"kind": "hist", "ops": data_pair(rng, 1030, MAXMEM - 1024, chs=3)})   # truncated to 1025 bits
